@@ -21,6 +21,8 @@ from .fam_fs import extract
 NAME = "pwd"
 
 QUOTES = [("", ""), ("", ""), ("", ""), ('"', '"'), ("'", "'"), ("[", "]"), ("{", "}"), ("", ";"), ("", ","), ('"', '";')]
+# nested enclosing text: a pair of identical quotes with another enclosing character directly inside
+NESTED = [('"[', ']"'), ("'\"", "\"'"), ('"{', '}"'), ("'", ",'"), ('"', ';"'), ("['", "']"), ('"', '"'), ("'", "'")]
 
 
 def generate(seed, tier="quick", mode=None, **kw):
@@ -129,6 +131,11 @@ def generate(seed, tier="quick", mode=None, **kw):
                     seg = [s for s in ln["segs"] if s[0] == "sec"][-1]
                     if "\"" not in ln["tmpl"]:
                         seg[2]["pre"], seg[2]["post"] = r.choice(QUOTES)
+                elif ln["kind"] == "keep" and "\"" not in ln["tmpl"] and "'" not in ln["tmpl"] and r.random() < 0.12:
+                    # ... and on slots in the middle of a line, where the line-level stripping has not consumed the tail
+                    for seg in [s_ for s_ in ln["segs"] if s_[0] == "sec" and not s_[2].get("pre") and not s_[2].get("post")]:
+                        if secrets[str(seg[2]["id"])]["cls"] in ("text", "num", "hex", "t7", "rwc") and r.random() < 0.7:
+                            seg[2]["pre"], seg[2]["post"] = r.choice(NESTED)
                 # the same Juniper plaintext in clear, in a slot that takes text
                 for s in ln["segs"]:
                     if s[0] == "sec" and s[2].get("enc") == "j9" and r.random() < 0.3:
@@ -322,6 +329,11 @@ def _check_c08(plan):
         if ln.get("kind") != "keep":
             continue
         toks = extract(ln, oline, plan["secrets"], lit_ws)
+        if toks is None:
+            # the enclosing text did not come through as written (C12's business): the replacement itself still counts here
+            toks = extract(ln, oline, plan["secrets"], lit_ws, loose_enclosing=True)
+            if toks is not None:
+                probes["enclosing_text_changed"] = probes.get("enclosing_text_changed", 0) + 1
         if toks is None:
             probes["unextractable"] += 1
             continue
